@@ -73,7 +73,8 @@ def oracle(chk, inp, newer_cls, older_cls, m, data, schema, ci, old_numbers):
     for how in (copy.copy, copy.deepcopy):
         try:
             dup = how(old)
-            extra = b"".join(unk_in[:2]) or b"\xf8\x7f\x05"
+            free = next(k for k in (2047, 2046, 1000, 999, 19, 18, 17, 16) if k not in old_numbers)
+            extra = b"".join(unk_in[:2]) or (betterproto.encode_varint(free << 3) + b"\x05")   # records the older class does NOT know
             dup.parse(extra)
             again = bytes(old)
             if again != re:
